@@ -5,6 +5,7 @@ from torch import Tensor
 from pfhedge._utils.doc import _set_attr_and_docstring
 from pfhedge._utils.doc import _set_docstring
 from pfhedge._utils.str import _format_float
+from pfhedge._utils.time import time_index
 from pfhedge.nn.functional import european_forward_start_payoff
 
 from ..primary.base import BasePrimary
@@ -82,7 +83,7 @@ class EuropeanForwardStartOption(BaseDerivative):
         return ", ".join(params)
 
     def _start_index(self) -> int:
-        return floor(self.start / self.ul().dt)
+        return time_index(self.start, self.ul().dt)
 
     def payoff_fn(self) -> Tensor:
         return european_forward_start_payoff(
